@@ -1,4 +1,4 @@
-package main
+package lib
 
 import (
 	"fmt"
@@ -26,46 +26,46 @@ func (r *Rand) Intn(n int) int {
 	}
 	return int(r.U64() % uint64(n))
 }
-func (r *Rand) Bool() bool          { return r.U64()&1 == 1 }
-func (r *Rand) Chance(pct int) bool { return r.Intn(100) < pct }
-func PickInt(r *Rand, xs ...int) int { return xs[r.Intn(len(xs))] }
+func (r *Rand) Bool() bool                 { return r.U64()&1 == 1 }
+func (r *Rand) Chance(pct int) bool        { return r.Intn(100) < pct }
+func PickInt(r *Rand, xs ...int) int       { return xs[r.Intn(len(xs))] }
 func PickU64(r *Rand, xs ...uint64) uint64 { return xs[r.Intn(len(xs))] }
 func PickStr(r *Rand, xs ...string) string { return xs[r.Intn(len(xs))] }
 
 // ---- Coq term printing ----
 
-func cN(x uint64) string   { return fmt.Sprintf("%d", x) }
-func cZ(x int64) string {
+func CN(x uint64) string { return fmt.Sprintf("%d", x) }
+func CZ(x int64) string {
 	if x < 0 {
 		return fmt.Sprintf("(%d)%%Z", x)
 	}
 	return fmt.Sprintf("%d%%Z", x)
 }
-func cBool(b bool) string {
+func CBool(b bool) string {
 	if b {
 		return "true"
 	}
 	return "false"
 }
-func cList(xs []string) string { return "[" + strings.Join(xs, "; ") + "]" }
-func cPair(a, b string) string { return "(" + a + ", " + b + ")" }
-func cBytes(b []byte) string {
+func CList(xs []string) string { return "[" + strings.Join(xs, "; ") + "]" }
+func CPair(a, b string) string { return "(" + a + ", " + b + ")" }
+func CBytes(b []byte) string {
 	xs := make([]string, len(b))
 	for i, x := range b {
 		xs[i] = fmt.Sprintf("%d", x)
 	}
-	return cList(xs)
+	return CList(xs)
 }
-func cOpt(s string, ok bool) string {
+func COpt(s string, ok bool) string {
 	if ok {
 		return "(Some " + s + ")"
 	}
 	return "None"
 }
-func cNs(xs []uint64) string {
+func CNs(xs []uint64) string {
 	out := make([]string, len(xs))
 	for i, x := range xs {
-		out[i] = cN(x)
+		out[i] = CN(x)
 	}
-	return cList(out)
+	return CList(out)
 }
